@@ -49,6 +49,10 @@ pub fn run_case(case: &Case) -> (Vec<(String, String)>, CaseInfo) {
     seq.extend(perm.iter().map(|i| i + 1));
     let mut delivered_so_far: Vec<usize> = vec![];
     let mut orphan_seen = false;
+    // how the most hazardous parentless block so far sat relative to the tip when it arrived:
+    // 0 = at or below the tip's height (or a branch whose fork point was purged), 1 = tip + 1,
+    // 2 = further above the tip
+    let mut orphan_rel: u8 = 9;
     let mut reject_seen = false;
     let mut step = 0usize;
     let mut schedule: Vec<(usize, bool)> = vec![];
@@ -72,11 +76,14 @@ pub fn run_case(case: &Case) -> (Vec<(String, String)>, CaseInfo) {
             info.orphans += 1;
             if !case.hist.ncfg.loading_completed {
                 orphan_seen = true;
+                let tip_id = d.node.tip().0;
+                orphan_rel = orphan_rel.min(if b.id <= tip_id { 0 } else if b.id == tip_id + 1 { 1 } else { 2 });
             }
         } else if idx != 0 && is_rootless(&d.node, &table, b) {
             // parent stored but the branch's fork point has been purged: same code path
             info.orphans += 1;
             orphan_seen = true;
+            orphan_rel = 0;
         }
         if is_dup {
             info.duplicates += 1;
@@ -91,7 +98,7 @@ pub fn run_case(case: &Case) -> (Vec<(String, String)>, CaseInfo) {
                 // that the state moved at all is C04's subject; whether the state the node is left in
                 // still describes one chain is this check's
                 for (suffix, what) in check_consistency(&d.node, &table, max_id) {
-                    let key = if orphan_seen { "C03|orphan_path".to_string() } else { format!("C03|{}|ctx=after_rejected_delivery", suffix) };
+                    let key = if orphan_seen && orphan_rel == 0 { "C03|orphan_path".to_string() } else { format!("C03|{}|ctx=after_rejected_delivery", suffix) };
                     viols.push((key, format!("after the rejected delivery of block idx {} id {}: {}", idx, b.id, what)));
                 }
                 info.dead = Some("rejected_block_left_trace".into());
@@ -122,8 +129,14 @@ pub fn run_case(case: &Case) -> (Vec<(String, String)>, CaseInfo) {
         if d.dead {
             break;
         }
-        let ctxclass = if orphan_seen {
+        // finding F10 (the out-of-order branch of add_block) is keyed by what it needs: a parentless
+        // block at or below the tip's height, or a branch whose fork point was purged. A block that
+        // merely arrives early (above the tip, its parent following later) goes through the same
+        // branch without harm on the pinned tree - such histories are judged like any other
+        let ctxclass = if orphan_seen && orphan_rel == 0 {
             "orphan_seen"
+        } else if orphan_seen {
+            "early_block_seen"
         } else if reject_seen {
             "reject_seen"
         } else if info.reorgs > 0 {
